@@ -561,6 +561,63 @@ def gate_catalogue_small():
     return out
 
 
+def check_id_sequence(system, name):
+    """state leaking between calls: every form of a multi-system gate is requested for EVERY id permutation, first in
+    forward and then in reversed permutation order, inside ONE process, and each answer is compared with an independent
+    reference for exactly those ids (textbook unitary; for the cyclic 3-qubit orders, where the unitary itself is the known
+    defect D17b, the HS matrix derived from the unitary returned for the same ids).  A result memoised under the gate name
+    alone is right for at most one permutation."""
+    mode, n, dims = SYSTEMS[system]
+    dims = list(dims)
+    c_sys, B = csys(system), ref_basis(system)
+    perms = [list(p) for p in itertools.permutations(range(n))]
+    fails = []
+
+    def bad(check, ids, rnd, msg):
+        fails.append({"check": check, "form": f"ids={ids} pass={rnd}", "msg": msg})
+    for rnd, order in (("forward", perms), ("reversed", perms[::-1]), ("forward-again", perms)):
+        for ids in order:
+            try:
+                u = np.asarray(dense(GT.generate_unitary_mat_from_gate_name(name, dims, ids)), dtype=complex)
+                cyc = ids_class(system, ids) == "/ids-cyclic"
+                if not cyc:
+                    uref = ref_unitary(name, system, ids)
+                    if phase_dev(u, uref) > TOL:
+                        bad("id-sequence/unitary_mat", ids, rnd, f"unitary differs from the textbook one for these ids by {phase_dev(u, uref):.3e}")
+                        uref = uref
+                else:
+                    uref = u
+                href = hs_of_unitary(B, uref)
+                forms = {
+                    "gate_mat": lambda: GT.generate_gate_mat_from_gate_name(name, dims, ids),
+                    "gate_mat@generate_qoperation_object": lambda: QT.generate_qoperation_object(
+                        mode="gate", name=name, object_name="gate_mat", dims=dims, ids=ids, c_sys=c_sys),
+                    "gate": lambda: GT.generate_gate_from_gate_name(name, c_sys, ids).hs,
+                    "effective_lindbladian_mat": lambda: sla.expm(np.asarray(dense(
+                        LT.generate_effective_lindbladian_mat_from_gate_name(name, dims, ids)), dtype=float)),
+                    "hamiltonian_mat": lambda: hs_of_unitary(B, sla.expm(-1j * np.asarray(dense(
+                        LT.generate_hamiltonian_mat_from_gate_name(name, dims, ids)), dtype=complex))),
+                }
+                for form, fn in forms.items():
+                    got = np.asarray(dense(fn()))
+                    dev = float(np.abs(got - href).max()) if got.shape == href.shape else float("inf")
+                    if dev > TOL:
+                        bad(f"id-sequence/{form}", ids, rnd,
+                            f"{form} requested for ids={ids} in the {rnd} pass differs from the HS matrix of the unitary for these ids by {dev:.3e}")
+            except Exception as e:  # noqa
+                bad("id-sequence/raises", ids, rnd, f"{type(e).__name__}: {e}")
+    # one report per check is enough
+    seen, out = set(), []
+    for f in fails:
+        if f["check"] not in seen:
+            seen.add(f["check"]); out.append(f)
+    return out
+
+
+def id_sequence_items():
+    return [("2qubit", n) for n in GT.get_gate_names_2qubit()] + [("3qubit", n) for n in GT.get_gate_names_3qubit()]
+
+
 def mprocess_names():
     return MT.get_mprocess_names_type1() + MT.get_mprocess_names_type2()
 
@@ -2131,6 +2188,11 @@ def oracle(ctx, volume=1):
         ctx.case(("basis", fam))
         for f in fails:
             ctx.violate(f"C17/basis/{fam}/{f['check']}", f"[{f['form']}]: {f['msg']}", {"kind": "basis", "family": fam, "form": f["form"], "check": f["check"]})
+    for system, name in id_sequence_items():
+        ctx.count(f"gate id-sequence/{system}")
+        ctx.case(("idseq", system, name), nontrivial=True, sample={"catalogue": "gate", "system": system, "name": name, "check": "all id permutations forward+reversed in one process"})
+        for f in check_id_sequence(system, name):
+            ctx.violate(f"C17/gate/{system}/{f['check']}", f"{name} [{f['form']}]: {f['msg']}", {"kind": "idseq", "system": system, "name": name})
     for f in check_tester():
         ctx.violate(f"C17/tester/{f['form']}/{f['check']}", f"{f['msg']}", {"kind": "tester", "form": f["form"], "check": f["check"]})
     ctx.case(("tester",))
@@ -2413,6 +2475,11 @@ def replay(ctx, data):
                 print("reference: must raise;", "implementation:", got or "raised")
                 bad += got is not None
         return 1 if bad else 0
+    if kind == "idseq":
+        fails = check_id_sequence(r["system"], r["name"])
+        for f in fails:
+            print("  ", f["check"], f["form"], f["msg"])
+        return 1 if fails else 0
     if kind == "basis":
         fails = [f for fam, fl in check_bases() if fam == r["family"] for f in fl]
         return verdict(fails)
